@@ -143,8 +143,10 @@ def judgeHttp (e : Env) (sw : SWorld) (urlPath : List Char) (tok : TokRef) (out 
 def judgeWs (e : Env) (sw : SWorld) (urlPath : List Char) (tok : TokRef) (out : WsOut) : Verdict :=
   if !sw.authOn then .ok else
   match out with
-  | .serveFlv _ key => if mayPull e sw (who sw tok) key then .ok else .unsound
-  | .upgraded _ | .closed _ => if (who sw tok).isSome then .ok else .unsound   -- no connection without an authenticated caller
+  -- a connection exists only for an authenticated caller, and it is labelled with THAT caller: the
+  -- sessions that run on it (ws-rtsp, WSP) decide by the label
+  | .serveFlv c key => if who sw tok = some c.user && mayPull e sw (who sw tok) key then .ok else .unsound
+  | .upgraded c | .closed c => if who sw tok = some c.user then .ok else .unsound
   | .unauthorized | .forbidden =>
     match resourceOf e urlPath with
     | some k => if mayPull e sw (who sw tok) k then .incomplete else .ok
